@@ -8,9 +8,12 @@ CONSTANTS
   PopHead = FALSE
   MaxCalls = 2
   WakeCheck = FALSE
+  Tids = {i0, i1, i2}
+  GiveBack = TRUE
 INVARIANT ResolveReturns
 INVARIANT NoLostWakeup
 INVARIANT RequestOut
 INVARIANT Recorded
 INVARIANT SnlFits
+SYMMETRY TidSym
 CHECK_DEADLOCK FALSE
